@@ -516,8 +516,8 @@ func TestC03(t *testing.T) {
 	w.Rule = "scripts over a real Syncer+Store in virtual time, generated adaptively at each quiescence: gossip of true next/skipping heads and of " +
 		"forged (bad link), far-forged, forked, wrong-chain, future-dated, time-unordered, stale and duplicate headers; Head()-learned heads; " +
 		"Head() calls whose network head request is answered late (after further gossip); validation contexts ending between two bifurcation rounds; range answers = honest prefix / error / empty / shifted / over-long / sparse / starting below; trust range unlimited or small (soft failures, " +
-		"bifurcation with and without getter gaps); Store.Append gated (the sync loop or the verifier call parked inside syncStore.Append, released in " +
-		"driver-chosen order) or not; every script ends by releasing all gates and draining; non-trivial when at least 4 actions"
+		"bifurcation with and without getter gaps); three always-generated real-time corpus cases with learner calls parked by a header type (inside " +
+		"setLocalHead, inside networkHead, inside syncStore.Append); every script ends by draining; non-trivial when at least 4 actions"
 	nRandom := 90
 	if emit.Thorough() {
 		nRandom = 1000
@@ -633,11 +633,11 @@ func TestC03(t *testing.T) {
 	for _, fx := range fixed {
 		for _, b := range []int{1, 64} {
 			scs = append(scs, scenario{class: fmt.Sprintf("%s/b%d", fx.name, b), tail: 1 + rng.U64()%30, nInit: 1 + rng.Intn(3), nChain: 200, batch: b,
-				gate: fx.gate, trust: fx.trust, bifGap: fx.name == "bifurcation_getter_gap", script: fx.f})
+				gate: false && fx.gate, trust: fx.trust, bifGap: fx.name == "bifurcation_getter_gap", script: fx.f})
 		}
 	}
 	for i := 0; i < nRandom; i++ {
-		gate := rng.Chance(65)
+		gate := rng.Chance(65) && false // since /repo 40dc6a8 a gated Store.Append would hold syncStore's lock and block every other Append
 		trust := []uint64{0, 0, 0, 6, 25}[rng.Intn(5)]
 		maxActs := 8 + rng.Intn(26)
 		scs = append(scs, scenario{class: fmt.Sprintf("random/g%v/t%d/a%d", gate, trust, maxActs/8*8), tail: 1 + rng.U64()%40, nInit: 1 + rng.Intn(4),
@@ -645,7 +645,7 @@ func TestC03(t *testing.T) {
 	}
 	corpusLateAdd(t, w) // always first: the check-then-act window of setLocalHead on the real code
 	// and the two schedules with delayed Head() calls that move the shim head into a list the loop is about to append (F23)
-	for _, kind := range []string{"range", "answer"} {
+	for _, kind := range []string{"range", "answer", "lock"} {
 		run, ok, err := syncfx.RunStraddle(kind)
 		if err != nil {
 			t.Fatalf("corpus straddle/%s: %v", kind, err)
@@ -655,6 +655,9 @@ func TestC03(t *testing.T) {
 			continue
 		}
 		class := "corpus/straddle_" + kind
+		if kind == "lock" {
+			class = "corpus/append_lock"
+		}
 		res := make([]string, len(run.Results))
 		for i, x := range run.Results {
 			res[i] = fmt.Sprint(x)
